@@ -752,8 +752,10 @@ class LogGen:
         isint = node['type'] == 'int'
         mixed = isint and self.triggers == 0 and rng.random() < self.mixed
         rel = self.relation(op, want)            # 'lt': node < literal, 'gt': node > literal, 'eq'
-        if rel == 'eq' and op == '!=' and node.get('computed'):
-            rel = 'lt'                           # no exact text exists for a computed value
+        if rel == 'eq' and op in ('!=', '<', '>') and node.get('computed'):
+            rel = 'lt' if op != '>' else 'gt'    # no exact text exists for a computed value
+            if op == '>':
+                rel = 'lt'
         unit, fu = node.get('unit'), f
         if node.get('unit') and (not isint or (mixed and rng.random() < 0.5)) and rng.random() < 0.6:
             unit = self.near_unit(node['unit'], d)
@@ -764,9 +766,9 @@ class LogGen:
             # integer literal in the node's own unit
             step = max(1, int(abs(v) * delta))
             w = int(v) + (0 if rel == 'eq' else step if rel == 'lt' else -step)
-            return ('lit', str(w), node.get('unit'))
+            return ('lit', node['text'] if rel == 'eq' else str(w), node.get('unit'))
         if rel == 'eq':
-            if op == '!=':
+            if op in ('!=', '<', '>'):
                 # exactly equal, no conversion involved ('!=' is not granted a tolerance by the statement)
                 txt = node['text']
                 if mixed:
@@ -788,7 +790,7 @@ class LogGen:
     def relation(self, op, want):
         rng = self.rng
         table = {('==', True): ['eq'], ('==', False): ['lt', 'gt'], ('!=', True): ['lt', 'gt'], ('!=', False): ['eq'],
-                 ('<', True): ['lt'], ('<', False): ['gt'], ('>', True): ['gt'], ('>', False): ['lt'],
+                 ('<', True): ['lt'], ('<', False): ['gt', 'gt', 'eq'], ('>', True): ['gt'], ('>', False): ['lt', 'lt', 'eq'],
                  ('<=', True): ['lt', 'eq'], ('<=', False): ['gt'], ('>=', True): ['gt', 'eq'], ('>=', False): ['lt']}
         return rng.choice(table[(op, want)])
 
